@@ -26,11 +26,14 @@ theorem Dead.not_leads {s : Sys} {l t : Nat} (h : Dead s l t) : ¬ leads s l t :
 
 variable {cfg : JointConfig} {c0 : Nat} {h : List Sys}
 
-theorem Hyp2.inv_at (H : Hyp2 cfg c0 h) :
+theorem Hyp2w.inv_at (H : Hyp2w cfg c0 h) :
     ∃ s0, h[0]? = some s0 ∧ ∀ s ∈ h, InvL (Owner h) (EntriesOf s0) s := H.toHyp.invL
 
+theorem Hyp2.inv_at (H : Hyp2 cfg c0 h) :
+    ∃ s0, h[0]? = some s0 ∧ ∀ s ∈ h, InvL (Owner h) (EntriesOf s0) s := H.toHyp2w.inv_at
+
 /-- one step keeps `Dead` -/
-theorem Dead.step (H : Hyp2 cfg c0 h) {n : Nat} {a b : Sys} (ha : h[n]? = some a)
+theorem Dead.step (H : Hyp2w cfg c0 h) {n : Nat} {a b : Sys} (ha : h[n]? = some a)
     (hb : h[n + 1]? = some b) {l t : Nat} (hd : Dead a l t) : Dead b l t := by
   obtain ⟨s0, _, hall⟩ := H.inv_at
   obtain ⟨st, hk, hst, hdd⟩ := hd
@@ -78,7 +81,7 @@ theorem Dead.step (H : Hyp2 cfg c0 h) {n : Nat} {a b : Sys} (ha : h[n]? = some a
       rw [hbt.term] at hlt ⊢
       exact ⟨by omega, .inl hbt.state⟩
 
-theorem Dead.later (H : Hyp2 cfg c0 h) {l t : Nat} :
+theorem Dead.later (H : Hyp2w cfg c0 h) {l t : Nat} :
     ∀ (d n : Nat) (a b : Sys), h[n]? = some a → h[n + d]? = some b → Dead a l t → Dead b l t := by
   intro d
   induction d with
@@ -94,7 +97,7 @@ theorem Dead.later (H : Hyp2 cfg c0 h) {l t : Nat} :
     exact ih (n + 1) _ b h1 (by rw [← hb]; congr 1; omega) (hd.step H ha h1)
 
 /-- **the leader of a term is never restarted while the term is still led later** -/
-theorem no_restart_between (H : Hyp2 cfg c0 h) {n d : Nat} {s s' : Sys} {l t : Nat}
+theorem no_restart_between (H : Hyp2w cfg c0 h) {n d : Nat} {s s' : Sys} {l t : Nat}
     (hn : h[n]? = some s) (hn' : h[n + d]? = some s') (hl : leads s l t) (hl' : leads s' l t) :
     ∀ m a b, n ≤ m → m < n + d → h[m]? = some a → h[m + 1]? = some b → ¬ IsRestart l a b := by
   intro m a b hm1 hm2 ha hb hr
@@ -118,7 +121,7 @@ theorem no_restart_between (H : Hyp2 cfg c0 h) {n d : Nat} {s s' : Sys} {l t : N
 
 /-- **the logs of the leader of a term at two points of the history**: same node, and the later log
 extends the earlier one -/
-theorem leader_log_ext (H : Hyp2 cfg c0 h) {n d : Nat} {s s' : Sys} {l l' t : Nat} {st st' : NState}
+theorem leader_log_ext (H : Hyp2w cfg c0 h) {n d : Nat} {s s' : Sys} {l l' t : Nat} {st st' : NState}
     (hn : h[n]? = some s) (hn' : h[n + d]? = some s')
     (hk : s.node l = some st) (hk' : s'.node l' = some st')
     (hs : st.raft.state = .leader) (hs' : st'.raft.state = .leader)
